@@ -300,6 +300,7 @@ func (e *Engine) verifyFunction(ct *Contract, prop string, tier string) *fnResul
 	mustfailSeen := map[string]bool{}
 	e.curFn = ct.Fn
 	e.callbacksWriteDB = false
+	e.dropAtBound = false
 	e.dbErrors = true
 	e.reachCount = nil
 	e.unmodelled = map[string]int{}
@@ -838,6 +839,8 @@ func (e *Engine) applyFlag(st *State, k, v string) {
 		e.dbErrors = false
 	case "callbacks":
 		e.callbacksWriteDB = v == "writedb"
+	case "unwind":
+		e.dropAtBound = v == "drop"
 	}
 }
 
